@@ -92,7 +92,7 @@ def gen_params(g, name):
         p |= {"init": g.choice([1.0, 2.0]), "a": g.choice([0.2, 0.0, 0.5]), "b": g.choice([0.0, 0.1, -0.05]), "c": g.choice([0.0, 0.3])}
     else:
         p |= {"s0": g.choice([1.0, 2.0]), "v0": g.choice([0.04, 0.1]), "alpha": g.choice([-0.4, -0.2, -0.45, 0.1]), "rho": g.choice([-0.9, 0.0, 0.5]),
-              "eta": g.choice([1.9, 0.5]), "n": max(2, n)}
+              "eta": g.choice([1.9, 0.5]), "n": max(2, n), "xi": g.choice([0.04, 0.2])}
     return p
 
 
@@ -127,7 +127,7 @@ def run_generator(torch, name, p, dtype=None):
             o = S.generate_local_volatility_process(N, n, lambda t, s: a + b * s + c * t, init_state=(p["init"],), dt=dt, dtype=dtype)
             out = {"spot": o.spot, "volatility": o.volatility}
         else:
-            o = S.generate_rough_bergomi(N, n, init_state=(p["s0"], p["v0"]), alpha=p["alpha"], rho=p["rho"], eta=p["eta"], xi=p["v0"], dt=dt, dtype=dtype)
+            o = S.generate_rough_bergomi(N, n, init_state=(p["s0"], p["v0"]), alpha=p["alpha"], rho=p["rho"], eta=p["eta"], xi=p["xi"], dt=dt, dtype=dtype)
             out = {"spot": o.spot, "variance": o.variance}
     eps = float(torch.finfo(dtype).tiny)
     reqs = []
